@@ -492,6 +492,7 @@ func init() {
 			c.ServicePositions("C08")
 			c.BatchIdentifiers("C08")
 			c.RequestMessageScoped("C08")
+			c.ReplyRequestScoped("C16") // ... and handed back in a response object of its own
 			c.ScatterIndexDiscipline("C08")
 			c.LosslessSplit("C08")
 			c.ScatterPartition("C08")
